@@ -1205,6 +1205,7 @@ package analysis
 //@   ensures forall c string :: old(c in dom(s.consumes)) ==> c in dom(s.consumes)
 //@   ensures forall c string :: old(c in dom(s.produces)) ==> c in dom(s.produces)
 //@   ensures forall M string :: opAtM(*pi, M) != nil ==> (forall i in 0..len(opAtM(*pi, M).Consumes) :: opAtM(*pi, M).Consumes[i] in dom(s.consumes)) && (forall i in 0..len(opAtM(*pi, M).Produces) :: opAtM(*pi, M).Produces[i] in dom(s.produces))
+//@   ensures opAtM(*pi, "GET") == pi.Get && opAtM(*pi, "PUT") == pi.Put && opAtM(*pi, "POST") == pi.Post && opAtM(*pi, "PATCH") == pi.Patch && opAtM(*pi, "DELETE") == pi.Delete && opAtM(*pi, "HEAD") == pi.Head && opAtM(*pi, "OPTIONS") == pi.Options
 //@   ensures forall c in dom(s.consumes) :: old(c in dom(s.consumes)) || (exists M string :: opAtM(*pi, M) != nil && inStrs(opAtM(*pi, M).Consumes, c))
 //@   ensures forall c in dom(s.produces) :: old(c in dom(s.produces)) || (exists M string :: opAtM(*pi, M) != nil && inStrs(opAtM(*pi, M).Produces, c))
 //@   loop 1: modifies heap spec.Parameter, map s.allSchemas, map s.allOfs, map s.references.schemas, map s.references.responses, map s.references.parameters, map s.references.items, map s.references.headerItems, map s.references.parameterItems, map s.references.allRefs, map s.patterns.parameters, map s.patterns.headers, map s.patterns.items, map s.patterns.schemas, map s.patterns.allPatterns, map s.enums.parameters, map s.enums.headers, map s.enums.items, map s.enums.schemas, map s.enums.allEnums
